@@ -50,7 +50,7 @@ PRIM = {"int": "ty_int({signed}, {bytes})", "float": "ty_float({bytes})", "bool"
 UNIT = {
     "name": "prim_types",
     "env": [os.path.join(ENV, "prim_types_env.rs")],
-    "declared_trusted": {r"external_body": 12},
+    "declared_trusted": {r"external_body": 17},
     "items": [
         {"kind": "enum", "file": "bindgen/ir/int.rs", "name": "IntKind", "prefix": "#[derive(Copy, Clone, PartialEq, Eq)]"},
         {"kind": "enum", "file": "bindgen/ir/ty.rs", "name": "FloatKind", "prefix": "#[derive(Copy, Clone, PartialEq, Eq)]"},
@@ -96,7 +96,22 @@ UNIT = {
              # long double / __float128: a type of exactly the C size (x86-64: 16 bytes, 16-aligned)
              "fk is LongDouble && size_known(layout.unwrap().size) ==> ty_size(r) == layout.unwrap().size",
              "fk is LongDouble && (layout.unwrap().size == 4 || layout.unwrap().size == 8) ==> ty_is_float(r)",
+             # no Rust type of that size: the f64 fallback (what makes `long double _Complex` 16 bytes: known finding F24)
+             "fk is LongDouble && !size_known(layout.unwrap().size) ==> ty_is_float(r) && ty_size(r) == 8",
              "fk is Float128 ==> ty_size(r) == 16 && ty_align(r) == 16",
+         ]},
+        # a complex type is two components: its size is twice the component's (C11 6.2.5p13: "same representation and
+        # alignment as an array of two elements of the corresponding real type")
+        {"kind": "fn", "file": "bindgen/codegen/mod.rs", "name": "complex_arm", "impl": r"^impl TryToRustTy for Type$", "ret": "r",
+         "closure": {"enclosing": "try_to_rust_ty", "anchor": "TypeKind::Complex(fk) => {", "nth": 0,
+                     "signature": "fn complex_arm(self_: &Type, ctx: &BindgenContext, fk: FloatKind) -> (r: Result<Tok, CgError>)"},
+         "subst": [(PQ % "root::__BindgenComplex<#float_path>", "ty_complex_of(true, &float_path)", 1, "R4"),
+                   (PQ % "__BindgenComplex<#float_path>", "ty_complex_of(false, &float_path)", 1, "R4"),
+                   ("self", "self_", 1, "R18 captured self")],
+         "requires": ["self_.s_layout(ctx).is_some()"],
+         "ensures": [
+             "r.is_ok()",
+             "(fk is Float || fk is Double) && ctx.spec_options().convert_floats ==> (match r { Ok(t) => ty_size(t) == (if fk is Float { 8int } else { 16int }), Err(_) => false })",
          ]},
         # the names bindgen itself vouches for on blocklisted types (unit vouch) are exactly the ones it maps to primitives
         {"kind": "fn", "file": "bindgen/ir/context.rs", "name": "is_stdint_type", "impl": r"^impl BindgenContext$", "impl_header": "impl BindgenContext", "impl_name": "BindgenContext", "ret": "r",
@@ -111,3 +126,15 @@ UNIT = {
          ]},
     ],
 }
+
+# Known finding F24 (witness): `long double _Complex` (32 bytes on x86-64) is emitted as __BindgenComplex<f64> (16 bytes): the
+# arm hands the layout of the WHOLE complex type to float_kind_rust_type as if it were the component's.  Expected to FAIL.
+import copy as _copy
+_w = _copy.deepcopy(next(i for i in UNIT["items"] if i.get("name") == "complex_arm"))
+_w["rename"] = "complex_arm__long_double"
+_w["rename_tag"] = "@long_double_complex_F24"
+_w["witness"] = True
+_w["closure"]["signature"] = _w["closure"]["signature"].replace("fn complex_arm(", "fn complex_arm__long_double(")
+_w["requires"] = ["self_.s_layout(ctx).is_some()", "self_.s_layout(ctx).unwrap().size == 32 && self_.s_layout(ctx).unwrap().align == 16"]
+_w["ensures"] = ["fk is LongDouble ==> (match r { Ok(t) => ty_size(t) == self_.s_layout(ctx).unwrap().size, Err(_) => false })"]
+UNIT["items"].append(_w)
